@@ -95,4 +95,16 @@ Theorem C08_format_ends_with_one_newline :
   recon (cfg_rs cfg) false (removelast (fm_final alnum cfg segs)) ++ rs_newline (cfg_rs cfg).
 Proof. exact format_ends_with_one_newline. Qed.
 
+(* for every program of the fragment (Model/Fragment.v) the end-of-file clause holds unconditionally *)
+From PasfmtVerif Require Import Model.Format Proofs.FormatProofs Proofs.FormatTotalProofs Proofs.FormatTabsProofs Proofs.FormatWsProofs Proofs.FormatCrlfProofs Proofs.FormatRelayoutProofs Proofs.FormatFragmentProofs.
+Theorem C08_format_fragment_ends_with_one_newline :
+  forall (alnum : bytes -> bool) (cfg : fconfig) (s out : bytes) (segs : list seg)
+    (ss : Fragment.stmts),
+  format_model alnum cfg s = inl out ->
+  lex_segments s = Some segs ->
+  map seg_ty segs = Fragment.render_prog ss ->
+  out =
+  recon (cfg_rs cfg) false (removelast (fm_final alnum cfg segs)) ++ rs_newline (cfg_rs cfg).
+Proof. exact format_fragment_ends_with_one_newline. Qed.
+
 
